@@ -58,3 +58,180 @@ theorem sortE_perm (es : List Entry) : (sortE es).Perm es := by
   | cons e es ih => exact (insertE_perm e _).trans (List.Perm.cons e ih)
 
 end LspShape
+
+namespace LspShape
+
+theorem sortedFrom_weaken (es : List Entry) (a b c d : Nat) (h : SortedFrom c d es)
+    (hk : a < c ∨ (a = c ∧ b ≤ d)) : SortedFrom a b es := by
+  cases es with
+  | nil => trivial
+  | cons e es => exact ⟨by have := h.1; omega, h.2⟩
+
+/-- the head of `clipFrom a rest` starts where `a` starts -/
+theorem clipFrom_head (a : Entry) (rest : List Entry) :
+    ∃ h t, clipFrom a rest = h :: t ∧ h.line = a.line ∧ h.col = a.col := by
+  induction rest generalizing a with
+  | nil => exact ⟨a, [], rfl, rfl, rfl⟩
+  | cons b rest ih =>
+    simp only [clipFrom]
+    split
+    · split
+      · exact ih a
+      · exact ⟨_, _, rfl, rfl, rfl⟩
+    · exact ⟨_, _, rfl, rfl, rfl⟩
+
+theorem sortedFrom_clipFrom (a : Entry) (rest : List Entry) (pl pc : Nat)
+    (h : SortedFrom pl pc (a :: rest)) : SortedFrom pl pc (clipFrom a rest) := by
+  induction rest generalizing a pl pc with
+  | nil => exact h
+  | cons b rest ih =>
+    obtain ⟨h1, h2, h3⟩ := h
+    simp only [clipFrom]
+    split
+    · rename_i hl
+      split
+      · rename_i hc
+        exact ih a pl pc ⟨h1, by rw [hl, hc]; exact h3⟩
+      · exact ⟨h1, ih b _ _ ⟨h2, h3⟩⟩
+    · exact ⟨h1, ih b _ _ ⟨h2, h3⟩⟩
+
+theorem sortedFrom_clip (es : List Entry) (pl pc : Nat) (h : SortedFrom pl pc es) :
+    SortedFrom pl pc (clip es) := by
+  cases es with
+  | nil => trivial
+  | cons a rest => exact sortedFrom_clipFrom a rest pl pc h
+
+theorem ordered_clipFrom (a : Entry) (rest : List Entry) (h : SortedFrom a.line a.col rest) :
+    Ordered (clipFrom a rest) := by
+  induction rest generalizing a with
+  | nil => trivial
+  | cons b rest ih =>
+    obtain ⟨h1, h2⟩ := h
+    simp only [clipFrom]
+    obtain ⟨hd, tl, heq, hl', hc'⟩ := clipFrom_head b rest
+    split
+    · rename_i hl
+      split
+      · rename_i hc
+        exact ih a (by rw [hl, hc]; exact h2)
+      · rename_i hc
+        rw [heq]
+        refine ⟨?_, by rw [← heq]; exact ih b h2⟩
+        right
+        simp only
+        refine ⟨by omega, ?_⟩
+        have : a.col ≤ b.col := by omega
+        omega
+    · rename_i hl
+      rw [heq]
+      refine ⟨?_, by rw [← heq]; exact ih b h2⟩
+      left; omega
+
+theorem ordered_clip (es : List Entry) (h : SortedFrom 0 0 es) : Ordered (clip es) := by
+  cases es with
+  | nil => trivial
+  | cons a rest => exact ordered_clipFrom a rest h.2
+
+/-- clipping changes nothing on a list that is already ordered and has no empty entries -/
+theorem clipFrom_id (a : Entry) (rest : List Entry) (ho : Ordered (a :: rest))
+    (hp : ∀ e ∈ a :: rest, 0 < e.len) : clipFrom a rest = a :: rest := by
+  induction rest generalizing a with
+  | nil => rfl
+  | cons b rest ih =>
+    obtain ⟨h1, h2⟩ := ho
+    have ha := hp a (by simp)
+    simp only [clipFrom]
+    have ihb := ih b h2 (fun e he => hp e (by simp at he ⊢; right; exact he))
+    split
+    · rename_i hl
+      have hb : a.col + a.len ≤ b.col := by
+        rcases h1 with h | h
+        · omega
+        · exact h.2
+      split
+      · omega
+      · rw [ihb]
+        have : min a.len (b.col - a.col) = a.len := by omega
+        rw [this]
+    · rw [ihb]
+
+theorem clip_id (es : List Entry) (ho : Ordered es) (hp : ∀ e ∈ es, 0 < e.len) : clip es = es := by
+  cases es with
+  | nil => rfl
+  | cons a rest => exact clipFrom_id a rest ho hp
+
+theorem filter_pos_id (es : List Entry) (hp : ∀ e ∈ es, 0 < e.len) :
+    es.filter (fun e => 0 < e.len) = es := by
+  rw [List.filter_eq_self]
+  intro e he
+  simpa using hp e he
+
+/-- every emitted token is an input entry, possibly shortened -/
+def FromEntry (es : List Entry) (t : Entry) : Prop :=
+  ∃ e ∈ es, e.line = t.line ∧ e.col = t.col ∧ e.typ = t.typ ∧ e.mods = t.mods ∧ t.len ≤ e.len
+
+theorem clipFrom_from (a : Entry) (rest : List Entry) :
+    ∀ t ∈ clipFrom a rest, FromEntry (a :: rest) t := by
+  induction rest generalizing a with
+  | nil =>
+    intro t ht
+    simp only [clipFrom, List.mem_singleton] at ht
+    subst ht
+    exact ⟨t, by simp, rfl, rfl, rfl, rfl, Nat.le_refl _⟩
+  | cons b rest ih =>
+    intro t ht
+    simp only [clipFrom] at ht
+    have lift : ∀ t, FromEntry (b :: rest) t → FromEntry (a :: b :: rest) t := by
+      intro t ⟨e, he, h⟩
+      exact ⟨e, List.mem_cons_of_mem _ he, h⟩
+    split at ht
+    · split at ht
+      · obtain ⟨e, he, h⟩ := ih a t ht
+        refine ⟨e, ?_, h⟩
+        simp only [List.mem_cons] at he ⊢
+        rcases he with he | he
+        · left; exact he
+        · right; right; exact he
+      · simp only [List.mem_cons] at ht
+        rcases ht with ht | ht
+        · subst ht
+          exact ⟨a, by simp, rfl, rfl, rfl, rfl, Nat.min_le_left _ _⟩
+        · exact lift t (ih b t ht)
+    · simp only [List.mem_cons] at ht
+      rcases ht with ht | ht
+      · subst ht
+        exact ⟨t, by simp, rfl, rfl, rfl, rfl, Nat.le_refl _⟩
+      · exact lift t (ih b t ht)
+
+/-! ### selection-range chains -/
+
+theorem dedupAdj_head (a : Range) (rest : List Range) :
+    ∃ t, dedupAdj (a :: rest) = a :: t := by
+  induction rest generalizing a with
+  | nil => exact ⟨[], rfl⟩
+  | cons b rest ih =>
+    simp only [dedupAdj]
+    split
+    · rename_i h; subst h; exact ih a
+    · exact ⟨_, rfl⟩
+
+theorem chainStrict_dedupAdj (rs : List Range) (h : chainNested rs = true) :
+    chainStrict (dedupAdj rs) = true := by
+  induction rs with
+  | nil => rfl
+  | cons a rest ih =>
+    cases rest with
+    | nil => rfl
+    | cons b rest =>
+      simp only [chainNested, Bool.and_eq_true] at h
+      have ihb := ih h.2
+      simp only [dedupAdj]
+      split
+      · exact ihb
+      · rename_i hne
+        obtain ⟨t, ht⟩ := dedupAdj_head b rest
+        rw [ht] at ihb ⊢
+        simp only [chainStrict, Bool.and_eq_true, bne_iff_ne, ne_eq]
+        exact ⟨⟨h.1, hne⟩, ihb⟩
+
+end LspShape
